@@ -554,7 +554,7 @@ def obs_record(d):
                fls(d["o_pe"]), fl(d["o_nfix"])))
 
 
-HDR = ["From Coq Require Import ZArith List Bool Floats.", "From Hermes Require Import Num CropModel CropNModel DevModel RootDistModel C09Corr.",
+HDR = ["From Coq Require Import ZArith List Bool Floats.", "From Hermes Require Import Num CropModel CropNModel DevModel RootDistModel RadiaModel C09Corr.",
        "Import ListNotations.", "Open Scope float_scope."]
 GROUPS = ["stage", "REDUK", "organs", "pool/biomass", "root-depth", "N-uptake", "bookkeeping", "GEHOB/WUGEH", "N-content-functions"]
 
@@ -708,6 +708,52 @@ def assim_correspond(ctx, corr, days, shard=400):
             corr.mismatches.append({"kind": "coverage", "what": "no traced day for the assimilation case " + need})
 
 
+def radia_correspond(ctx, corr, days, shard=300):
+    """head of radia() (RadiaModel.rd_light: light-use efficiency, AMAX under the CO2 methods and temperature types, light response)
+    against the locals recorded by the harness' shadow of radia() (shadow = real kernel on every case): AMAX, EFFE, DLE, DGAC, DGAO and
+    the arguments of the logarithms / saturation exponentials"""
+    pts = [d for d in days if d["grown"] and d.get("a_ok") and "h_o" in d]
+    def rec(d):
+        o = d["h_o"]
+        return ("{| rao_in := {| rd_temp := %s; rd_mintmp := %s; rd_maxamax := %s; rd_co2 := %s; rd_meth := (%d)%%Z; rd_temptyp := (%d)%%Z; "
+                "rd_rad := %s; rd_sund := %s; rd_lai := %s; rd_dl := %s; rd_dle := %s; rd_rdn := %s; rd_drc := %s; "
+                "rd_p2 := %s; rd_ktv := %s; rd_ktc := %s; rd_kto := %s; rd_cossc := %s; rd_sslae := %s; rd_logx := %s; rd_logy := %s; "
+                "rd_elai := %s; rd_ec := %s; rd_eo := %s |}; rao_o_amax := %s; rao_o_effe := %s; rao_o_dle := %s; rao_o_dgac := %s; rao_o_dgao := %s; "
+                "rao_xarg := %s; rao_yarg := %s; rao_ecarg := %s; rao_eoarg := %s |}"
+                % (fl(d["h_temp"]), fl(d["h_mintmp"]), fl(d["h_maxamax"]), fl(d["h_co2"]), d["h_meth"], d["h_temptyp"],
+                   fl(d["a_rad"]), fl(d["a_sund"]), fl(d["h_lai"]), fl(d["a_dl"]), fl(d["h_dle0"]), fl(d["h_rdn"]), fl(d["a_drc"]),
+                   fl(o["p2"]), fl(o["ktv"]), fl(o["ktc"]), fl(o["kto"]), fl(o["cossc"]), fl(o["sslae"]), fl(o["logx"]), fl(o["logy"]),
+                   fl(o["elai"]), fl(o["ec"]), fl(o["eo"]), fl(d["h_o_amax"]), fl(d["h_o_effe"]), fl(d["a_dle"]), fl(d["a_dgac"]), fl(d["a_dgao"]),
+                   fl(o["xarg"]), fl(o["yarg"]), fl(o["ecarg"]), fl(o["eoarg"])))
+    recs = [rec(d) for d in pts]
+    items = []
+    for k in range(0, len(recs), shard):
+        body = HDR + ["Definition cases : list radia_obs := [\n%s\n]." % ";\n".join(recs[k:k + shard]),
+                      "Definition M := Eval vm_compute in radia_mismatches %d%%nat cases." % k, "Print M."]
+        items.append(("Cases_c09radia_%d" % (k // shard), "\n".join(body) + "\n"))
+    for nm, rc2, o in ctx.coq_eval_many(items, timeout=900):
+        m = re.search(r"M\s*=\s*(.*?)\s*:\s*list \(nat \* nat\)", o, re.S)
+        if rc2 != 0 or not m:
+            corr.mismatches.append({"kind": "coq-eval", "shard": nm, "output": o[-1500:]})
+            continue
+        pairs = re.findall(r"\(\s*(\d+)(?:%nat)?\s*,\s*(\d+)(?:%nat)?\s*\)", m.group(1))
+        if m.group(1).strip() != "[]" and not pairs:
+            corr.mismatches.append({"kind": "coq-eval", "shard": nm, "output": o[-1500:]})
+        for idx, mask in pairs[:10]:
+            d = pts[int(idx)]
+            corr.mismatches.append({"kind": "radia-head-kernel", "differs": [n for j, n in enumerate(["AMAX/EFFE/DLE", "DGAC/DGAO", "argument"]) if int(mask) >> j & 1],
+                                    "crop": d["crop"], "zeit": d["zeit"], "line": d["line"], "tag_of_line": d.get("line"),
+                                    "case": {k: d[k] for k in d if k.startswith("h_") or k.startswith("a_")}})
+    corr.cases += len(recs)
+    corr.dist["radia-head-days"] = len(recs)
+    for m_ in (1, 2, 3):
+        for tt in (1, 2):
+            corr.dist["radia-head:CO2method=%d,temptyp=%d" % (m_, tt)] = sum(1 for d in pts if d["h_meth"] == m_ and (d["h_temptyp"] == 1) == (tt == 1))
+    for need in ("CO2method=1,temptyp=1", "CO2method=2,temptyp=1", "CO2method=3,temptyp=1", "CO2method=2,temptyp=2"):
+        if pts and not corr.dist["radia-head:" + need]:
+            corr.mismatches.append({"kind": "coverage", "what": "no traced day for the radia case " + need})
+
+
 def dl_run(ctx):
     return waterlib.run_harness(ctx, "c09dl", ["-seed", str(ctx.seed), "-n", "4000" if ctx.thorough else "500"])
 
@@ -777,6 +823,7 @@ def correspond(ctx):
     dev_correspond(ctx, c, days)
     rootdist_correspond(ctx, c, days)
     assim_correspond(ctx, c, days)
+    radia_correspond(ctx, c, days)
     seen = set()
     for d in days:
         c.bump("crop=" + d["crop"])
